@@ -76,7 +76,7 @@ func c16Parse(w *c16Watch, s string) (res interface{}, err error, panicked inter
 }
 
 func runC16(r *ev.Run) {
-	r.Rule = "(i) every string of length <=5 (6 thorough) over a 26-symbol character alphabet taken from the tokenizer's branches (letters, digits, quotes, brackets, operator characters, an invalid byte), each parsed twice in a row; (i'') every string of length <=3 over all 100 characters (printable ASCII, tab, newline, NUL, an invalid byte, a non-ASCII letter), bare and as a column definition; (i') every operator string of length <=3 (4 thorough) over 12 operator characters inside 6 statement templates, each parsed 16 times (map iteration order is the one source of nondeterminism no scheduler controls); (ii) every token sequence of length <=4 (5 over a reduced alphabet, thorough) over a 63-token alphabet (each parsed twice in a row) incl. extreme numbers, unterminated and doubled quotes, multi-byte identifiers, and every one-token deletion/replacement/insertion of SQLite-valid CREATE statements; (iii) locality: an alphabet of column definitions, indexed columns and table constraints (all accepted by real SQLite), every ordered pair and triple (quadruple thorough) as one statement: what is reported for element i must equal what is reported for the same text as the only element; determinism: same result twice and after parsing any other statement of the alphabet, which includes 25 lexical corner cases (every quoting style, with and without a doubled quote, terminated and not, open comments, malformed numbers, invalid bytes) - for these also every ordered triple. oracle: returns (no panic, no hang), deep-equal results. non-trivial = inputs the parser accepts"
+	r.Rule = "(i) every string of length <=5 (6 thorough) over a 26-symbol character alphabet taken from the tokenizer's branches (letters, digits, quotes, brackets, operator characters, an invalid byte), each parsed twice in a row; (i'') every string of length <=3 over all 100 characters (printable ASCII, tab, newline, NUL, an invalid byte, a non-ASCII letter), bare and as a column definition; (i') every operator string of length <=3 (4 thorough) over 12 operator characters inside 6 statement templates, each parsed 16 times (map iteration order is the one source of nondeterminism no scheduler controls); (ii) every token sequence of length <=4 (5 over a reduced alphabet, thorough) over a 63-token alphabet (each parsed twice in a row) incl. extreme numbers, unterminated and doubled quotes, multi-byte identifiers, and every one-token deletion/replacement/insertion of SQLite-valid CREATE statements; (iii) locality: an alphabet of column definitions, indexed columns and table constraints (all accepted by real SQLite), every ordered pair and triple (quadruple thorough) as one statement: what is reported for element i must equal what is reported for the same text as the only element; (iii') the same one level down: every ordered list of <=3 (4 thorough) column constraints of different kinds (primary key, unique, null, collate, default, check, references in 21 forms) on one column: the fields a constraint owns are reported as for that constraint alone; determinism: same result twice and after parsing any other statement of the alphabet, which includes 25 lexical corner cases (every quoting style, with and without a doubled quote, terminated and not, open comments, malformed numbers, invalid bytes) - for these also every ordered triple. oracle: returns (no panic, no hang), deep-equal results. non-trivial = inputs the parser accepts"
 	w := newC16Watch()
 	go func() {
 		for {
@@ -235,6 +235,7 @@ func runC16(r *ev.Run) {
 	c16Operators(r)
 	c16Edits(r, w)
 	c16Locality(r, w)
+	c16ConstraintLocality(r, w)
 	r.Set("accepted_inputs", accepted)
 }
 
